@@ -3,6 +3,7 @@ from registry_common import COMMON_ASSUME
 ENTRY = dict(
         title="Callback filters deliver what they promise over every value sequence",
         design_ref="DESIGN.md section 6 / C20",
+        prop_modules=["C20", "C20F64", "C20Table"],
         technique="Lean 4 theorems by induction over ALL call lists (each filter a Mealy machine over values and clock readings) "
                   "+ correspondence with the real filter objects under a patched time.monotonic + Lean judge C20.spec on implementation deliveries",
         level_text=(
